@@ -10,12 +10,13 @@ EXPLANATION = (
     'list_output/disasm_range entry points only reads the image. R-OPT: branches on reporting options (-q, -l, '
     '-dump_symbols, -dump_macros, write_list_file) control only reporting statements (nothing that reaches an image/symbol '
     'write or consumes input). R-PASS: no assembling state survives from pass 1 into pass 2. FRESH: the interactive asm '
-    'command assembles into a fresh automatic AsmContext. Not decided: byte equality of two outputs.')
+    'command assembles into a fresh automatic AsmContext. OUT-NAME: the output file name is only opened, printed, compared or '
+    'deleted, never handed to a content writer. Not decided: byte equality of two outputs.')
 
 
 def run(tier, t0):
     prog = common.program()
     cg = common.callgraph()
     results = [state.ndet(prog, cg, [common.ASM_MAIN, 'assemble_code']), state.glob(prog), state.pure(prog, cg),
-               state.opt(prog, cg), passes.rpass(prog, cg), state.fresh(prog)]
+               state.opt(prog, cg), passes.rpass(prog, cg), state.fresh(prog), state.outname(prog)]
     return report.finish('C13', tier, results, EXPLANATION, [], common.TRUSTED, t0)
